@@ -272,7 +272,7 @@ def main(tier):
         chk.add_tlc("MC_JtArray[GreedyIsSat+SolsStep]", tlc.run("MC_JtArray", cfg, chk.workdir, timeout=3000, heap="12g"))
         st = run_cases(chk, "C02", 4000 if tier == "quick" else 40000, {"maxp": 5}, "c02")
         chk.cov["distinct_nontrivial"] = st["cross"]
-        chk.cov["rule"] = ("random signatures of 1..5 array parameters (+return) over a 17+4 annotation alphabet emitted by the "
+        chk.cov["rule"] = ("random signatures of 1..5 array parameters (+return) over a 23+6 annotation alphabet (incl. a multi-axis specifier in the middle, a variadic named like a single axis, true division) emitted by the "
                            "specification, shapes biased towards one consistent assignment; every case executed in all variants; "
                            "non-trivial = cases with >=2 parameters that are accepted or fail at a later parameter / the return value")
         chk.cov["constants"] = {"sat_universe": {k: sorted(v) if isinstance(v, set) else v for k, v in u.items()}}
